@@ -961,7 +961,8 @@ func (e *authEngine) send(s *srvRec, method, target string, host *string, r *req
 	res := hitResult{status: w.Code, reason: jsonError(w.Body.Bytes()), observed: e.mgr.observed() != before,
 		stamp: w.Header().Get("X-Stamp"), method: method, path: reqPath, location: w.Header().Get("Location")}
 	switch {
-	case w.Code == 401 && denyReasons[res.reason]:
+	case w.Code == 401:
+		// any 401 (the wording of the JSON error is not part of a property)
 		res.class = "deny"
 	case (w.Code == 301 || w.Code == 307) && w.Header().Get("Location") != "":
 		res.class = "redirect"
